@@ -1,63 +1,183 @@
 package main
 
-// C03 (deepening): whole bodies of the two leaf builders and of ctutil.createLeaf, statement by statement, as functions of the facts they
-// test. Returned: (what is handed back: 0 nothing / 1 a leaf, is-error, state). Tie theorems: lean/CTV/Props/C03Tie.lean.
+// C03 (deepening): the two leaf builders of serialization.go as Lean functions of the facts they test, regenerated on every run.
+//
+// The functions are executed path by path with the symbolic executor of k_tbscanon.go (helpers — also ones with several results — inlined,
+// locals resolved flow-sensitively, struct construction by composite literal or by field assignment alike), and every path is reduced to
+// what the property is about: under which conditions it is taken (chain length `n`, entry type, `IsPreIssuer(chain[1])`, failure of the TBS
+// transformation) and what it hands back — nothing + error, or a leaf with: the kind of entry filled in (1 X509, 2 precert), the chain index
+// of the certificate whose SubjectPublicKeyInfo is hashed, the chain index passed to `x509.BuildPrecertTBS` as pre-issuer (0 = nil), and the
+// requirement that the entry's TBS is the result of `BuildPrecertTBS(chain[0].RawTBSCertificate, …)` / `RemoveSCTList(chain[0].RawTBSCertificate)`.
+// The kernel is emitted as a flat if-chain over the (sorted) success paths, so it does not depend on how the code is cut into helpers,
+// how its tests are nested or what its locals are called. Tie theorems: lean/CTV/Props/C03Tie.lean.
 import (
-	"go/ast"
+	"fmt"
+	"regexp"
+	"sort"
+	"strings"
 )
 
-// issuerLocal: the local whose RawSubjectPublicKeyInfo is hashed (whatever it is called)
-func issuerLocal(rel, fn string) string {
-	fd := mustFunc(rel, fn)
-	name := ""
-	ast.Inspect(fd.Body, func(n ast.Node) bool {
-		if s, ok := n.(*ast.SelectorExpr); ok && s.Sel.Name == "RawSubjectPublicKeyInfo" {
-			if id, ok := s.X.(*ast.Ident); ok {
-				name = id.Name
+var (
+	reLen    = regexp.MustCompile(`^len\(chain\) (==|!=|<|<=|>|>=) (\d+)$`)
+	reEtype  = regexp.MustCompile(`^etype (==|!=) (X509LogEntryType|PrecertLogEntryType)$`)
+	reKey    = regexp.MustCompile(`sha256\.Sum256\(chain\[(\d+)\]\.RawSubjectPublicKeyInfo\)`)
+	reBuild  = regexp.MustCompile(`x509\.BuildPrecertTBS\(chain\[0\]\.RawTBSCertificate,(nil|chain\[(\d+)\])\)`)
+	reRemove = regexp.MustCompile(`x509\.RemoveSCTList\(chain\[0\]\.RawTBSCertificate\)`)
+)
+
+var leanOp = map[string]string{"==": "=", "!=": "≠", "<": "<", "<=": "≤", ">": ">", ">=": "≥"}
+
+// leanLit: one canonical literal as a Lean Bool over the kernel's inputs
+func leanLit(l lit, errInput map[string]string) (string, bool) {
+	s := l.String()
+	if m := reLen.FindStringSubmatch(s); m != nil {
+		return fmt.Sprintf("decide (n %s (%s : Int))", leanOp[m[1]], m[2]), true
+	}
+	if m := reEtype.FindStringSubmatch(s); m != nil {
+		v := map[string]string{"X509LogEntryType": "0", "PrecertLogEntryType": "1"}[m[2]]
+		return fmt.Sprintf("decide (etype %s (%s : Int))", leanOp[m[1]], v), true
+	}
+	atom := strings.TrimPrefix(s, "!")
+	if strings.HasPrefix(atom, "FIRST(chain[1].ExtKeyUsage;==:x509.ExtKeyUsageCertificateTransparency;true;false)") && (atom == s || "!"+atom == s) {
+		if atom == s {
+			return "isPre", true
+		}
+		return "(!isPre)", true
+	}
+	for callee, in := range errInput {
+		if strings.HasPrefix(l.l, "ERR "+callee+"(") && l.r == "nil" {
+			if l.op == "!=" {
+				return in, true
+			}
+			if l.op == "==" {
+				return "(!" + in + ")", true
 			}
 		}
-		return true
-	})
-	if name == "" {
-		panic(bail{rel + ": " + fn + " no longer hashes <local>.RawSubjectPublicKeyInfo"})
 	}
-	return name
+	return "", false
+}
+
+func leanCond(cs []clause, errInput map[string]string) (string, bool) {
+	if len(cs) == 0 {
+		return "true", true
+	}
+	var conj []string
+	for _, cl := range cs {
+		var dis []string
+		for _, l := range cl {
+			t, ok := leanLit(l, errInput)
+			if !ok {
+				return l.String(), false
+			}
+			dis = append(dis, t)
+		}
+		sort.Strings(dis)
+		conj = append(conj, "("+strings.Join(dis, " || ")+")")
+	}
+	sort.Strings(conj)
+	return strings.Join(conj, " && "), true
+}
+
+// leafKernel: fn path by path, each successful path reduced by `outcome` to the tuple it stands for.
+func leafKernel(rel, fn string, params []string, leanName, sig, resultTy, errTuple string, errInput map[string]string,
+	outcome func(pathText string) (string, error)) func() string {
+	return func() string {
+		f := parseFile(rp(rel))
+		fd := mustFunc(rel, fn)
+		c := &canonizer{file: f, keep: map[string]bool{fn: true}, tbsType: "tbsCertificate"}
+		s := &pstate{env: map[string]string{}}
+		i := 0
+		for _, fl := range fd.Type.Params.List {
+			for _, n := range fl.Names {
+				if i < len(params) {
+					s.env[n.Name] = params[i]
+				}
+				i++
+			}
+		}
+		type row struct{ cond, tuple string }
+		var rows []row
+		for _, o := range c.block(fd.Body.List, []*pstate{s}) {
+			if o.done == "error" {
+				// error paths are the complement of the success paths; their conditions must still be expressible
+				if t, ok := leanCond(o.conds, errInput); !ok {
+					panic(bail{fmt.Sprintf("%s: %s tests something the kernel has no input for: %s", rel, fn, t)})
+				}
+				continue
+			}
+			if !strings.HasPrefix(o.done, "return ") {
+				panic(bail{fmt.Sprintf("%s: a path of %s does not end in a return", rel, fn)})
+			}
+			cond, ok := leanCond(o.conds, errInput)
+			if !ok {
+				panic(bail{fmt.Sprintf("%s: %s tests something the kernel has no input for: %s", rel, fn, cond)})
+			}
+			text := strings.Join(o.effects, " ; ") + " ; " + strings.ReplaceAll(o.done, "\x00", ",")
+			tuple, err := outcome(text)
+			if err != nil {
+				panic(bail{fmt.Sprintf("%s: %s: %v (path: %s)", rel, fn, err, cond)})
+			}
+			rows = append(rows, row{cond, tuple})
+		}
+		sort.Slice(rows, func(a, b int) bool { return rows[a].cond < rows[b].cond })
+		var sb strings.Builder
+		for _, r := range rows {
+			fmt.Fprintf(&sb, "if %s then\n    %s\n  else ", r.cond, r.tuple)
+		}
+		return fmt.Sprintf("/-- generated from %s func %s: its successful paths (helpers inlined, locals resolved), every other case is an error -/\ndef %s %s : %s :=\n  %s\n    %s\n",
+			rel, fn, leanName, sig, resultTy, sb.String(), errTuple)
+	}
 }
 
 func init() {
 	se := "serialization.go"
-	val := map[string]int{"nil": 0, "&leaf": 1, "leaf": 1, "&MerkleTreeLeaf{…}": 1}
 	register(genFile{name: "TbsBodies", imports: []string{"CTV.Basic.I64", "CTV.Basic.ErrKind"}, units: []unit{
-		// kind_: 0 none, 1 X509 entry, 2 precert entry; key_: index of the chain certificate whose key is hashed; pre_: index of the chain certificate passed to BuildPrecertTBS as pre-issuer (0 = nil)
-		{"MerkleTreeLeafFromChain", func() string {
-			iss := issuerLocal(se, "MerkleTreeLeafFromChain")
-			return handlerKernel(se, "MerkleTreeLeafFromChain", "mtlFromChain", "(n etype : Int) (isPre buildFails : Bool)", "Nat × Bool × Nat × Int × Int",
-				"let kind_ := (0 : Nat)\n  let key_ := (0 : Int)\n  let pre_ := (0 : Int)\n  ", "(0, false, kind_, key_, pre_)",
-				Spec{Kind: "i64", Lazy: true, Canon: true, ParamNames: []string{"chain", "etype", "timestamp"}, Ret: "statusstate", StateVars: []string{"kind_", "key_", "pre_"}, Status: val,
-					Vars:     map[string]string{iss: "key_", "preIssuer": "pre_", "etype": "etype"},
-					CallRepl: map[string]string{"IsPreIssuer": "isPre"},
-					ErrCalls: map[string]string{"x509.BuildPrecertTBS": "buildFails"},
-					AppendEffect: map[string]string{"stmt:leaf.TimestampedEntry.X509Entry=&ASN1Cert{Data:chain[0].Raw}": "kind_ := 1", "stmt:leaf.TimestampedEntry.EntryType=PrecertLogEntryType": "kind_ := 2"},
-					IgnoreLHS:    []string{"leaf", "leaf.TimestampedEntry.PrecertEntry", "cert"},
-					Repl: map[string]string{"len(chain)": "n", "X509LogEntryType": "(0 : Int)", "PrecertLogEntryType": "(1 : Int)",
-						"chain[1]": "(1 : Int)", "chain[2]": "(2 : Int)"}})()
-		}},
-		{"MerkleTreeLeafForEmbeddedSCT", func() string {
-			iss := issuerLocal(se, "MerkleTreeLeafForEmbeddedSCT")
-			st := map[string]int{"nil": 0}
-			ast.Inspect(mustFunc(se, "MerkleTreeLeafForEmbeddedSCT").Body, func(n ast.Node) bool { // whatever the successful return builds counts as "a leaf"
-				if r, ok := n.(*ast.ReturnStmt); ok && len(r.Results) == 2 && src(r.Results[1]) == "nil" {
-					st[src(r.Results[0])] = 1
+		// (1 = a leaf is handed back, is-error, kind: 1 X509 / 2 precert, index of the hashed key, index of the pre-issuer passed on (0 = nil))
+		{"MerkleTreeLeafFromChain", leafKernel(se, "MerkleTreeLeafFromChain", []string{"chain", "etype", "timestamp"}, "mtlFromChain",
+			"(n etype : Int) (isPre buildFails : Bool)", "Nat × Bool × Nat × Int × Int", "((0 : Nat), true, (0 : Nat), (0 : Int), (0 : Int))",
+			map[string]string{"x509.BuildPrecertTBS": "buildFails"},
+			func(t string) (string, error) {
+				x509e, pre := strings.Contains(t, "X509Entry"), strings.Contains(t, "PrecertEntry")
+				switch {
+				case x509e && !pre:
+					if !strings.Contains(t, "ASN1Cert{Data:chain[0].Raw}") || reKey.MatchString(t) || strings.Contains(t, "x509.") {
+						return "", fmt.Errorf("the X509 entry is not just chain[0].Raw")
+					}
+					return "((1 : Nat), false, (1 : Nat), (0 : Int), (0 : Int))", nil
+				case pre && !x509e:
+					k := reKey.FindAllStringSubmatch(t, -1)
+					b := reBuild.FindAllStringSubmatch(t, -1)
+					if len(k) != 1 || len(b) < 1 {
+						return "", fmt.Errorf("precert entry without exactly one hashed chain key and a BuildPrecertTBS(chain[0].RawTBSCertificate, …) call")
+					}
+					for _, m := range b {
+						if m[0] != b[0][0] {
+							return "", fmt.Errorf("two different BuildPrecertTBS calls on one path")
+						}
+					}
+					if !strings.Contains(t, "TBSCertificate:RES0 "+b[0][0]) || !strings.Contains(t, "PrecertLogEntryType") {
+						return "", fmt.Errorf("the precert entry's TBS is not the result of BuildPrecertTBS, or its type is not PrecertLogEntryType")
+					}
+					p := "0"
+					if b[0][1] != "nil" {
+						p = b[0][2]
+					}
+					return fmt.Sprintf("((1 : Nat), false, (2 : Nat), (%s : Int), (%s : Int))", k[0][1], p), nil
 				}
-				return true
-			})
-			return handlerKernel(se, "MerkleTreeLeafForEmbeddedSCT", "mtlForEmbedded", "(n : Int) (removeFails : Bool)", "Nat × Bool × Int",
-				"let key_ := (0 : Int)\n  ", "(0, false, key_)",
-				Spec{Kind: "i64", Lazy: true, Canon: true, ParamNames: []string{"chain", "timestamp"}, Ret: "statusstate", StateVars: []string{"key_"},
-					Status:   st,
-					Vars:     map[string]string{iss: "key_"},
-					ErrCalls: map[string]string{"x509.RemoveSCTList": "removeFails"},
-					Repl:     map[string]string{"len(chain)": "n", "chain[1]": "(1 : Int)"}})()
-		}},
+				return "", fmt.Errorf("cannot tell which entry the leaf carries")
+			})},
+		// (1 = a leaf, is-error, index of the hashed key)
+		{"MerkleTreeLeafForEmbeddedSCT", leafKernel(se, "MerkleTreeLeafForEmbeddedSCT", []string{"chain", "timestamp"}, "mtlForEmbedded",
+			"(n : Int) (removeFails : Bool)", "Nat × Bool × Int", "((0 : Nat), true, (0 : Int))",
+			map[string]string{"x509.RemoveSCTList": "removeFails"},
+			func(t string) (string, error) {
+				k := reKey.FindAllStringSubmatch(t, -1)
+				r := reRemove.FindString(t)
+				if len(k) != 1 || r == "" || !strings.Contains(t, "TBSCertificate:RES0 "+r) || !strings.Contains(t, "PrecertEntry") ||
+					!strings.Contains(t, "PrecertLogEntryType") || strings.Contains(t, "X509Entry") {
+					return "", fmt.Errorf("not a precert entry over RemoveSCTList(chain[0].RawTBSCertificate) with one hashed chain key")
+				}
+				return fmt.Sprintf("((1 : Nat), false, (%s : Int))", k[0][1]), nil
+			})},
 	}})
 }
